@@ -109,18 +109,34 @@ def _subtree_roles(ctx):
 
 
 def _iter_in_order(it_expanded, want_pat):
-    """'ok' | ('refute', why) | None for the iterable of a loop that must visit `want_pat` in its own order"""
-    if match(want_pat, it_expanded):
-        return 'ok'
-    m = match("$f($x, $*r)", it_expanded)
-    if m and isinstance(m['f'], ast.Name) and match(want_pat, m['x']):
-        if m['f'].id in ('list', 'tuple', 'iter'):
-            return 'ok'
-        if m['f'].id in ('reversed', 'sorted', 'set', 'frozenset'):
-            return 'refute', f"iterates `{src(it_expanded)}`: the order of the collection is not kept"
-    if isinstance(it_expanded, ast.Subscript) and match(want_pat, it_expanded.value):
-        return 'refute', f"iterates `{src(it_expanded)}`: only a part of the collection (or a reordered copy) is visited"
-    return None
+    """'ok' | ('refute', 'order' | 'subset', why) | None for the iterable of a loop that must visit `want_pat` in its own order"""
+    order_lost = subset = False
+    e = it_expanded
+    while not match(want_pat, e):
+        if isinstance(e, ast.Call) and isinstance(e.func, ast.Name) and e.args and not isinstance(e.args[0], ast.Starred):
+            if e.func.id in ('list', 'tuple', 'iter') and len(e.args) == 1 and not e.keywords:
+                e = e.args[0]
+                continue
+            if e.func.id in ('reversed', 'sorted', 'set', 'frozenset'):
+                order_lost = True
+                e = e.args[0]
+                continue
+            return None
+        if isinstance(e, ast.Subscript):
+            sl = e.slice
+            if isinstance(sl, ast.Slice) and sl.lower is None and sl.upper is None:
+                if sl.step is not None:
+                    order_lost = True
+            else:
+                subset = True
+            e = e.value
+            continue
+        return None
+    if subset:
+        return 'refute', 'subset', f"iterates `{src(it_expanded)}`: only a part of the collection is visited"
+    if order_lost:
+        return 'refute', 'order', f"iterates `{src(it_expanded)}`: the order of the collection is not kept"
+    return 'ok'
 
 
 def _rows(ctx):
@@ -209,7 +225,7 @@ def _rows(ctx):
             if r == 'ok':
                 o.site(f, loop, f"for {loop.target.id} in {src(it)}")
             elif r:
-                o.refute(f, loop, loop.iter, "children loop " + r[1])
+                o.refute(f, loop, loop.iter, "children loop " + r[2])
             elif match(f"{P['task']}.all_children", it):
                 o.refute(f, loop, loop.iter, "recursion over all_children: every descendant below the first level is printed more than once")
             else:
@@ -251,7 +267,7 @@ def _rows(ctx):
             if r == 'ok':
                 o.site(top, loop, f"for {loop.target.id} in {src(it)}")
             elif r:
-                o.refute(top, loop, loop.iter, "task loop " + r[1])
+                o.refute(top, loop, loop.iter, "task loop " + r[2])
             else:
                 o.undecided(top, loop, loop.iter, f"task loop iterates `{src(it)}`, not the given `{top.params[0]}`")
         # header before the task rows, same table, same fields
@@ -667,6 +683,8 @@ def _width(ctx):
             return
         for st in stores:
             W, I = st.targets[0].value.id, st.targets[0].slice
+            info.setdefault('W', W)
+            info.setdefault('store', st)
             cn = cfg.node_of(st)
             fors = cfg.enclosing_fors(cn)
             V = ex.expand(st.value, cn, stop={W})
@@ -674,6 +692,10 @@ def _width(ctx):
             if sub:
                 V = subst(V, sub)
             args = facts.flatten_lattice(V, 'max')
+            if args is None and match("len($c.text)", V):
+                o.refute(f, st, st, f"the width update `{src(V)[:90]}` keeps no running maximum: the width is that of the last row only, "
+                                    f"not the maximum over all rows")
+                continue
             if args is None:
                 if facts.flatten_lattice(V, 'min') is not None:
                     o.refute(f, st, st, "column width is a running MINIMUM of the cell lengths: longer cells overflow their column")
@@ -730,10 +752,10 @@ def _width(ctx):
                 continue
             it = ex.expand(row_loop.iter, cfg.node_of(row_loop))
             r = _iter_in_order(it, rows)
-            if r == 'ok' or (r and 'order' in r[1]):
+            if r == 'ok' or (r and r[1] == 'order'):
                 pass
             elif r:
-                o.refute(f, row_loop, row_loop.iter, "width loop " + r[1] + ": cells of the other rows can be wider than their column")
+                o.refute(f, row_loop, row_loop.iter, "width loop " + r[2] + ": cells of the other rows can be wider than their column")
                 ok = False
             else:
                 o.undecided(f, row_loop, row_loop.iter, f"width loop iterates `{src(it)}`, not the rows of the table")
@@ -822,12 +844,23 @@ def _width(ctx):
         m = None
         rets = [n for n in walk_no_nested(f.node) if isinstance(n, ast.Return) and n.value is not None]
         if len(rets) == 1:
-            m = match("$s.join($c)", ex.expand(rets[0].value))
+            v0 = rets[0].value
+            if isinstance(v0, ast.Name):
+                vs = value_set(f, v0, cfg.node_of(rets[0]))
+                v0 = vs[0][0] if len(vs) == 1 else v0
+            m = match("$s.join($c)", v0)
         if m and isinstance(m['c'], (ast.GeneratorExp, ast.ListComp)):
             comp = m['c']
             g = comp.generators[0]
-            if len(comp.generators) == 1 and not g.ifs and _iter_in_order(g.iter, rows) == 'ok' and const_str(m['s']) == '\n' \
-                    and any(x is calls[0] or same(x, calls[0]) for x in ast.walk(comp.elt)):
+            r = _iter_in_order(ex.expand(g.iter, cfg.node_containing(comp)), rows)
+            if r and r != 'ok':
+                o.refute(f, rets[0], g.iter, "render loop " + r[2])
+            elif len(comp.generators) == 1 and g.ifs:
+                o.refute(f, rets[0], comp, "rows are filtered before rendering: some tasks get no line")
+            elif const_str(m['s']) is not None and const_str(m['s']) != '\n':
+                o.refute(f, rets[0], m['s'], f"lines are joined by {const_str(m['s'])!r}, expected a line break")
+            elif len(comp.generators) == 1 and r == 'ok' and const_str(m['s']) == '\n' \
+                    and any(x is c for c in calls for x in ast.walk(comp.elt)) and isinstance(comp.elt, ast.Call):
                 o.site(f, rets[0], "'\\n'.join(row.repr(widths) for row in rows)")
                 o.site(f, rets[0], "rows in order")
                 o.site(f, rets[0], "separator is a line break")
@@ -866,7 +899,7 @@ def _width(ctx):
             if r == 'ok':
                 o.site(f, loop, "rows rendered in table order")
             elif r:
-                o.refute(f, loop, loop.iter, "render loop " + r[1])
+                o.refute(f, loop, loop.iter, "render loop " + r[2])
             else:
                 o.undecided(f, loop, loop.iter, "render loop does not iterate the rows of the table")
             if acc.sep is not None:
@@ -1091,42 +1124,47 @@ def _pad(ctx):
                 o.refute(f, r, r, "colored_text returns None on this path")
                 continue
             v = ex.expand(r.value, cfg.node_of(r))
-            parts = parts_of(v)
-            conds = ', '.join(facts.cond_texts(cfg.conditions(cfg.node_of(r)))) or 'always'
-            j = next((i for i, p in enumerate(parts) if isinstance(p, ast.Name) and p.id == tp), None)
-            lj = next((i for i, p in enumerate(parts) if match(f"{tp}.ljust({wp})", p) or match(f"{tp}.ljust({wp}, ' ')", p)), None)
-            if j is None and lj is None:
-                o.undecided(f, r, r, f"returned value `{src(v)[:100]}` does not contain the text parameter as a part of a concatenation")
-                continue
-            if lj is not None:
-                before, after = parts[:lj], parts[lj + 1:]
-            else:
-                nxt = parts[j + 1] if j + 1 < len(parts) else None
-                verdict = _pad_part(nxt, tp, wp)
-                if verdict is None:
-                    o.refute(f, r, r, f"the return under [{conds}] yields `{src(v)[:80]}`: the text is not padded to `{wp}` on this path, "
-                                      f"so the cell is narrower than its column")
-                    continue
-                if verdict != 'ok':
-                    o.refute(f, r, nxt, verdict)
-                    continue
-                before, after = parts[:j], parts[j + 2:]
-            bad = False
-            for p in before + after:
-                cs = const_str(p)
-                if cs is not None:
-                    if not (cs.startswith('\x1b') or cs in (':', ';')):
-                        o.refute(f, r, p, f"visible text {cs!r} is added outside the padded text: the cell is wider than its column")
-                        bad = True
-                elif mentions(p, tp) or mentions(p, wp):
-                    o.undecided(f, r, p, f"part `{src(p)}` of the returned value depends on the text / width")
-                    bad = True
-            if any(const_str(p) is None for p in before + after) and not (before and (const_str(before[0]) or '').startswith('\x1b')):
-                o.undecided(f, r, r, "non-constant parts around the padded text without a leading escape sequence")
-                bad = True
-            if not bad:
-                o.site(f, r, f"[{conds}] returns {src(v)[:90]}")
+            for cs, parts in cases_of(v):
+                conds = ', '.join(facts.cond_texts(cfg.conditions(cfg.node_of(r)) + cs)) or 'always'
+                _pad_case(o, f, r, v, parts, conds, tp, wp)
     ctx.guarded(o, run)
+
+
+def _pad_case(o, f, r, v, parts, conds, tp, wp):
+    shown = ' + '.join(src(p) for p in parts) or "''"
+    j = next((i for i, p in enumerate(parts) if isinstance(p, ast.Name) and p.id == tp), None)
+    lj = next((i for i, p in enumerate(parts) if match(f"{tp}.ljust({wp})", p) or match(f"{tp}.ljust({wp}, ' ')", p)), None)
+    if j is None and lj is None:
+        o.undecided(f, r, r, f"returned value `{src(v)[:100]}` does not contain the text parameter as a part of a concatenation")
+        return
+    if lj is not None:
+        before, after = parts[:lj], parts[lj + 1:]
+    else:
+        nxt = parts[j + 1] if j + 1 < len(parts) else None
+        verdict = _pad_part(nxt, tp, wp)
+        if verdict is None:
+            o.refute(f, r, r, f"the return under [{conds}] yields `{shown[:80]}`: the text is not padded to `{wp}` on this path, "
+                              f"so the cell is narrower than its column")
+            return
+        if verdict != 'ok':
+            o.refute(f, r, nxt, verdict)
+            return
+        before, after = parts[:j], parts[j + 2:]
+    bad = False
+    for p in before + after:
+        cs = const_str(p)
+        if cs is not None:
+            if not (cs.startswith('\x1b') or cs in (':', ';')):
+                o.refute(f, r, p, f"visible text {cs!r} is added outside the padded text: the cell is wider than its column")
+                bad = True
+        elif mentions(p, tp) or mentions(p, wp):
+            o.undecided(f, r, p, f"part `{src(p)}` of the returned value depends on the text / width")
+            bad = True
+    if any(const_str(p) is None for p in before + after) and not (before and (const_str(before[0]) or '').startswith('\x1b')):
+        o.undecided(f, r, r, "non-constant parts around the padded text without a leading escape sequence")
+        bad = True
+    if not bad:
+        o.site(f, r, f"[{conds}] returns {shown[:90]}")
 
 
 def _pad_part(p, tp, wp):
@@ -1395,7 +1433,7 @@ def _links(ctx):
                 elif not (isinstance(g.iter, ast.Name) and g.iter.id == lp):
                     r = _iter_in_order(g.iter, lp)
                     if r and r != 'ok':
-                        o.refute(many, rets[0], g.iter, "link loop " + r[1])
+                        o.refute(many, rets[0], g.iter, "link loop " + r[2])
                     elif r != 'ok':
                         o.undecided(many, rets[0], g.iter, "link list is not built from the given linked tasks")
                 if not mm:
@@ -1440,7 +1478,7 @@ def _links(ctx):
                         elif r == 'ok':
                             o.site(many, node, f"(task, {src(mm['b'])}) for each of {lp}, in order")
                         elif r:
-                            o.refute(many, loop, loop.iter, "link loop " + r[1])
+                            o.refute(many, loop, loop.iter, "link loop " + r[2])
                         else:
                             o.undecided(many, loop, loop.iter, "link loop does not iterate the given linked tasks")
                     if acc.sep == '':
